@@ -169,7 +169,7 @@ func (e *Engine) wsCompute(fn *ssa.Function) *wset {
 		}
 		if cc.IsInvoke() {
 			key := "(" + types.TypeString(types.Unalias(cc.Value.Type()), nil) + ")." + cc.Method.Name()
-			if e.isIgnored(key) || e.isPure(key) || key == "(error).Error" {
+			if e.isIgnored(key) || e.isPure(key) || e.isObserverDecl(key) || key == "(error).Error" {
 				return
 			}
 			if c := e.contracts[key]; c != nil && c.HasMod && len(c.Modifies) == 0 {
@@ -191,6 +191,17 @@ func (e *Engine) wsCompute(fn *ssa.Function) *wset {
 				}
 				return
 			} else {
+				if u, ok := cc.Value.(*ssa.UnOp); ok {
+					if g, ok := u.X.(*ssa.Global); ok && g.Pkg != nil && g.Pkg.Pkg != nil {
+						key := g.Pkg.Pkg.Path() + "." + g.Name()
+						if e.isIgnored(key) || e.isPure(key) {
+							return
+						}
+						if c := e.contracts[key]; c != nil && c.HasMod && len(c.Modifies) == 0 {
+							return
+						}
+					}
+				}
 				setTop("dynamic call in " + fn.String())
 				return
 			}
@@ -199,13 +210,14 @@ func (e *Engine) wsCompute(fn *ssa.Function) *wset {
 		switch {
 		case e.theoryWrites(key, cc, addHeap, addMap):
 			return
-		case e.isIgnored(key) || e.isPure(key):
+		case e.isIgnored(key) || e.isPure(key) || e.isObserverDecl(key):
+			return
+		}
+		if c := e.contracts[key]; c != nil && c.HasMod && len(c.Modifies) == 0 {
+			// `modifies nothing` (assumed for externs, checked for repository functions under contract)
 			return
 		}
 		if c := e.contracts[key]; c != nil && c.Extern {
-			if c.HasMod && len(c.Modifies) == 0 {
-				return
-			}
 			setTop("extern contract with effects: " + key)
 			return
 		}
